@@ -74,7 +74,7 @@ def drivers(tier):
              bound='n<=%d, all compositions, all index expressions x 5 column selectors' %
                    (7 if th else 6),
              cases=lambda: _small_cases(7 if th else 6)),
-        dict(kind='hyp', name='rand', strategy=_rand_case(), examples=60000 if th else 4000),
+        dict(kind='hyp', name='rand', strategy=_rand_case(), examples=150000 if th else 10000),
     ]
 
 
